@@ -572,7 +572,21 @@ fn run_faulted(c: &SdCase, acc: &mut Acc, monitor: bool) -> Result<(), Failure> 
                 return Err(fail("C13", if hang { "unbounded" } else { "panic" }, format!("call {} {:?} with faults {:?} (card {:?}, crc {}): {}", i, call, c.faults, c.kind, c.use_crc, m)));
             }
         };
-        let fired_now = card.0.borrow().fault_fired && !fired_before;
+        let mut fired_now = card.0.borrow().fault_fired && !fired_before;
+        if fired_now && r.is_ok() {
+            // a multi-block read makes the card queue the block *after* the last one asked for;
+            // damage in that block reaches the host, if at all, as filler between the data and
+            // CMD12 - it is not data the call returns
+            let asked = reads_before as u64 + count as u64;
+            let ahead_only = c.faults.iter().all(|f| match f {
+                Fault::FlipBit { nth_read, .. } | Fault::Burst { nth_read, .. } | Fault::WrongToken { nth_read, .. } => *nth_read as u64 >= asked,
+                _ => false,
+            });
+            if ahead_only {
+                fired_now = false;
+                acc.class("fault:only-in-the-read-ahead-block");
+            }
+        }
         if !fired_now && !fault_seen {
             // healthy prefix: must simply work
             match &r {
@@ -774,9 +788,9 @@ pub fn timing_strategy(near_budget: bool) -> BoxedStrategy<Timing> {
         prop_oneof![3 => Just(0u8), 1 => Just(0x20u8), 1 => Just(0x01u8), 1 => Just(0x08u8), 1 => Just(0x29u8)],
         prop::bool::weighted(0.15),
         // busy after the stop token of a multi-block write: as after any other data block
-        (prop_oneof![6 => (0u16..60), 2 => Just(0u16), 2 => (10_001u16..49_000)], any::<bool>(), any::<bool>(), any::<bool>()),
+        (prop_oneof![6 => (0u16..60), 2 => Just(0u16), 2 => (10_001u16..49_000)], any::<bool>(), any::<bool>(), any::<bool>(), any::<bool>()),
     )
-        .prop_map(|(ncr, token_delay, busy_write, busy_stop, init_polls, cmd0_ignored, ocr_extra, sluggish, (busy_stop_write, stop_gap, sticky_status, nwr_gap))| Timing {
+        .prop_map(|(ncr, token_delay, busy_write, busy_stop, init_polls, cmd0_ignored, ocr_extra, sluggish, (busy_stop_write, stop_gap, sticky_status, nwr_gap, nrc_gap))| Timing {
             ncr,
             token_delay,
             busy_write,
@@ -790,6 +804,7 @@ pub fn timing_strategy(near_budget: bool) -> BoxedStrategy<Timing> {
             stop_gap,
             sticky_status,
             nwr_gap,
+            nrc_gap,
         })
         .boxed()
 }
@@ -861,7 +876,7 @@ pub fn enumerate_bit_flips(acc: &mut Acc, test: &dyn Fn(&SdCase, &mut Acc) -> Re
                 use_crc: true,
                 acquire_retries: 2,
                 cap: cap.clone(),
-                timing: Timing { ncr: (bit % 9) as u8, token_delay: bit % 5, busy_write: 3, busy_stop: 2, init_polls: 1, cmd0_ignored: 0, ocr_extra: 0, sluggish: false, busy_stop_write: 0, stop_gap: false, sticky_status: false, nwr_gap: false },
+                timing: Timing { ncr: (bit % 9) as u8, token_delay: bit % 5, busy_write: 3, busy_stop: 2, init_polls: 1, cmd0_ignored: 0, ocr_extra: 0, sluggish: false, busy_stop_write: 0, stop_gap: false, sticky_status: false, nwr_gap: false, nrc_gap: false },
                 bg_seed: 77 + bit as u32,
                 calls: vec![SdCall::Write { block: BlockSel::Exact(5), n: 1, seed: bit as u32 }, SdCall::Read { block: BlockSel::Exact(5), n: 1 }, SdCall::Read { block: BlockSel::Exact(5), n: 1 }],
                 faults: vec![Fault::FlipBit { nth_read: 0, bit }],
@@ -884,7 +899,7 @@ pub fn enumerate_bit_flips(acc: &mut Acc, test: &dyn Fn(&SdCase, &mut Acc) -> Re
                         use_crc: false,
                         acquire_retries: 2,
                         cap: cap.clone(),
-                        timing: Timing { ncr: 1, token_delay: 1, busy_write: 0, busy_stop: 0, init_polls: 0, cmd0_ignored: 0, ocr_extra: 0, sluggish: false, busy_stop_write: 0, stop_gap: false, sticky_status: false, nwr_gap: false },
+                        timing: Timing { ncr: 1, token_delay: 1, busy_write: 0, busy_stop: 0, init_polls: 0, cmd0_ignored: 0, ocr_extra: 0, sluggish: false, busy_stop_write: 0, stop_gap: false, sticky_status: false, nwr_gap: false, nrc_gap: false },
                         bg_seed: 3,
                         calls: vec![call, SdCall::Read { block: BlockSel::Zero, n: 1 }],
                         faults: vec![Fault::FlipBit { nth_read: 0, bit }],
